@@ -194,7 +194,9 @@ def rule_f2_order(chk: Check, ix: Index, F):
                         f"the closing-quote search is tried before the brace search and matches {w!r}, which contains a `{{` that is not "
                         f"doubled: the replacement field after it becomes literal text (e.g. a field preceded by a backslash)")
     if n == 0:
-        raise AnalysisError("F2: no literal-part scan pattern with both End and LBrace found")
+        chk.count("F2-scan-pattern")
+        chk.fail("F2-scan-pattern", "middle-pattern:delimiters", repo.TOKENIZE,
+                 "no literal-part scan pattern offers both the closing quote (End) and the field opener (LBrace)")
 
 
 def rule_f10(chk: Check, ix: Index, rule_id: str = "F10-merged-literals"):
